@@ -2,7 +2,7 @@
    [run entry args] evaluates one modelled entry point on byte-string arguments and
    returns the projected observables as byte strings.  Integers travel as 8-byte
    big-endian two's complement. *)
-From Model Require Import Bytes Entries Prim Tables ExtCrypto Cert KAC Mapping Sig LS RI.
+From Model Require Import Bytes Entries Prim Tables ExtCrypto Cert KAC Mapping Sig LS RI Time Crypto.
 Open Scope N_scope.
 
 Definition argZ (b : bytes) : Z := wrap64 (Z.of_N (be_decode b)).
@@ -68,6 +68,12 @@ Fixpoint args_to_kv (a : list bytes) : list (bytes * bytes) :=
   end.
 Definition optZ (o : option Z) : bytes := match o with Some v => outZ v | None => [255%N] end.
 
+Definition out_queries (o : option (list query)) : res (list bytes) :=
+  match o with
+  | None => Err
+  | Some qs => Ok (flat_map (fun q => [[q_alg q]; q_key q; q_msg q; q_sig q]) qs)
+  end.
+
 Definition run_struct (e : N) (a : list bytes) : option (res (list bytes)) :=
   let a0 := arg 0 a in let a1 := arg 1 a in
   if e =? E_ReadCertificate then Some (
@@ -105,6 +111,27 @@ Definition run_struct (e : N) (a : list bytes) : option (res (list bytes)) :=
   else if e =? E_ReadSessionKey then Some (pair2 (take 32 a0))
   else if e =? E_ReadSessionTag then Some (pair2 (take 32 a0))
   else if e =? E_ReadECIESSessionTag then Some (pair2 (take 8 a0))
+  else if e =? E_LS2Expiration then Some (Ok [outZ (published_unix (argN a0)); outZ (expiration_unix (argN a0) (argN a1))])
+  else if e =? E_MetaExpiration then Some (Ok [outZ (published_unix (argN a0)); outZ (expiration_unix (argN a0) (argN a1))])
+  else if e =? E_EncExpiration then Some (Ok [outZ (published_unix (argN a0)); outZ (expiration_unix (argN a0) (argN a1))])
+  else if e =? E_LeaseTime then Some (Ok [outZ (lease_time_millis a0)])
+  else if e =? E_Lease2Time then Some (Ok [outZ (lease2_time_unix (argN a0)); lease2_date (argN a0)])
+  else if e =? E_NewLease2 then Some (one (new_lease2_end (argZ a0) (argZ a1)))
+  else if e =? E_NewLease then Some (Ok [new_lease_date (argZ a0) (argZ a1)])
+  else if e =? E_OfflineExpires then Some (Ok [outZ (off_expires_unix (argN a0)); off_expires_date (argN a0)])
+  else if e =? E_MetaEntryExpires then Some (Ok [outZ (meta_entry_expires_unix (argN a0))])
+  else if e =? E_NewestOldest then Some (
+    match newest_of a, oldest_of a with
+    | Some n, Some o => Ok [n; o]
+    | _, _ => Err
+    end)
+  else if e =? E_VerifyRouterInfo then Some (do p <- read_router_info a0; out_queries (ri_verify_queries (fst p)))
+  else if e =? E_VerifyLeaseSet then Some (do l <- read_lease_set a0; out_queries (ls_verify_queries l))
+  else if e =? E_VerifyLeaseSet2 then Some (do p <- read_lease_set2 a0; out_queries (ls2_verify_queries (fst p)))
+  else if e =? E_VerifyMetaLeaseSet then Some (do p <- read_meta_lease_set a0; out_queries (meta_verify_queries (fst p)))
+  else if e =? E_VerifyEncryptedLeaseSet then Some (do p <- read_encrypted_lease_set a0; out_queries (els_verify_queries (fst p)))
+  else if e =? E_VerifyOfflineSignature then Some (
+    do p <- read_offline_signature a0 (argN a1); out_queries (option_map (fun q => [q]) (offline_query (fst p) (arg 2 a))))
   (* size/deny lookups on one 16-bit code (C09, C10 translation validation) *)
   else if e =? E_KCSizes then Some (let t := argZ a0 in
     Ok [optZ (kc_sig_size t); optZ (kc_spk_size t); optZ (kc_crypto_size t); optZ (kc_crypto_pub_sizes t); optZ (kc_sig_pub_sizes t)])
